@@ -287,7 +287,7 @@ Proof.
     try (eexists; reflexivity).
   - congruence.
   - destruct k; eexists; reflexivity.
-  - destruct e; eexists; reflexivity.
+  - destruct e; [| |destruct (rt c)]; eexists; reflexivity.
   - destruct (closed s); [|destruct a]; eexists; reflexivity.
   - destruct (vec s); eexists; reflexivity.
   - destruct o; eexists; reflexivity.
@@ -299,15 +299,11 @@ Proof.
 Qed.
 
 (* closing is final *)
-Lemma closed_sticky c s l s' :
-  step c s l = Some s' -> (closed s = true -> closed s' = true) /\ (sclosed s = true -> sclosed s' = true).
+Lemma closed_sticky_task c s t s' :
+  step_task c s t = Some s' -> (closed s = true -> closed s' = true) /\ (sclosed s = true -> sclosed s' = true).
 Proof.
-  intros H. destruct l as [t o|t|t|n]; cbn [step] in H.
-  - unfold start in H. destruct (negb (Nat.eqb t (length (tasks s)))); [discriminate|].
-    destruct o as [k rm|x b|x|x| | ];
-      repeat match type of H with context [if ?b then _ else _] => destruct b end;
-      inversion H; subst; sp; auto.
-  - unfold step_task, acquire, fail_get, finish_get, hand_back in H.
+  intros H.
+  unfold step_task, acquire, fail_get, finish_get, hand_back in H.
     destruct (clear_fields s t) as (F1&F2&F3&F4&F5&F6&F7&F8&F9&F10&F11&F12&F13&F14&F15).
     destruct (pcof s t) as [|k rm|e rm|rm a|w rm|w rm o|r|o|o r|o r|o| | | | |o b|o a|o| | | | | | |sz|r];
       try discriminate H;
@@ -317,9 +313,25 @@ Proof.
       inversion H; subst; sp; autorewrite with fld; rewrite ?F2, ?F5;
       clear F1 F3 F4 F6 F7 F8 F9 F10 F11 F12 F13 F14 F15;
       split; intros K; try exact K; try discriminate K; try assumption; try reflexivity.
+Qed.
+
+Lemma closed_sticky c s l s' :
+  step c s l = Some s' -> (closed s = true -> closed s' = true) /\ (sclosed s = true -> sclosed s' = true).
+Proof.
+  intros H. destruct l as [t o|t|t|t|n]; cbn [step] in H.
+  - unfold start in H. destruct (negb (Nat.eqb t (length (tasks s)))); [discriminate|].
+    destruct o as [k rm|x b|x|x| | ];
+      repeat match type of H with context [if ?b then _ else _] => destruct b end;
+      inversion H; subst; sp; auto.
+  - eapply closed_sticky_task; exact H.
   - unfold cancel_task in H.
     destruct (pcof s t) as [|k rm|e rm|rm a|w rm|w rm o|r|o|o r|o r|o| | | | |o b|o a|o| | | | | | |sz|r];
       try discriminate H; destruct a; inversion H; subst; sp; autorewrite with fld; auto.
+  - unfold fire_task in H. destruct (negb (rt c && mem_nat t (timed s))); [discriminate|].
+    destruct (pcof s t) as [|k rm|e rm|rm a|w rm|w rm o|r|o|o r|o r|o| | | | |o b|o a|o| | | | | | |sz|r];
+      try discriminate H.
+    destruct (closed s || a); [eapply closed_sticky_task; exact H|].
+    inversion H; subst; sp; auto.
   - inversion H; subst. auto.
 Qed.
 
